@@ -12,6 +12,7 @@ CONSTANTS
   Delays <- NoDelay
   Weights <- DistOnly
   Surs = {0}
+  CUs <- BaseCU
   NoDst = TRUE
   OkSubsets = FALSE
   NeedConsistent = FALSE
